@@ -238,6 +238,19 @@ func c07Gen(t *rapid.T) mkCase {
 	}
 	c.Spec.Schedule = genSchedule(t, len(frags))
 	c.Spec.GapUs = rapid.SampledFrom([]int{0, 300, 1500}).Draw(t, "gapus")
+	if len(frags) >= 2 && rapid.IntRange(0, 3).Draw(t, "redirect") == 0 {
+		// one fragment is answered with a redirection first (its slot has moved to another master):
+		// the merge must still wait for, and use, the final node's reply
+		fr := frags[rapid.IntRange(0, len(frags)-1).Draw(t, "redirfrag")]
+		owner := 0
+		switch {
+		case fr.Slot > 10921:
+			owner = 2
+		case fr.Slot > 5460:
+			owner = 1
+		}
+		c.Spec.Moved = append(c.Spec.Moved, SlotNode{Slot: fr.Slot, Node: (owner + 1 + rapid.IntRange(0, 1).Draw(t, "redirto")) % 3})
+	}
 	cs := ClientSpec{}
 	// neighbours before and after, so that the merged reply has to keep its place
 	if rapid.Bool().Draw(t, "before") {
@@ -303,6 +316,9 @@ func TestC07(t *testing.T) {
 		}
 		if len(c.Spec.Values) > 0 {
 			cls = append(cls, "scripted-values")
+		}
+		if len(c.Spec.Moved) > 0 {
+			cls = append(cls, "one-fragment-redirected")
 		}
 		for _, p := range c.Spec.Plans {
 			if bytes.Equal(p.Reply, []byte("+QUEUED\r\n")) {
